@@ -66,7 +66,7 @@ func c13Grammar(rng interface{ Intn(int) int }, n int) []string {
 }
 
 func TestVerifC13(t *testing.T) {
-	rep := newVerifReport("C13", "adversarial redirect_uri grammar (scheme x user-info tricks x look-alike hosts x ports x paths with '..'/encodings x query/fragment x control characters) x client configurations (domains only, patterns only, both, none, unknown client) through the real /idp/oauth2/authorize; whenever a code is redirected, a WHATWG-style reader of the emitted Location decides the contacted host: must be https, no query, no '..' segment, host == domain or *.domain (dot boundary), pattern match when configured; class = (client config, scheme/host/path classes, accepted)")
+	rep := newVerifReport("C13", "adversarial redirect_uri grammar (scheme x user-info tricks x look-alike hosts x ports x paths with '..'/encodings x query/fragment x control characters) x client configurations (domains only, patterns only, both, domains with a pattern that does not compile, none, unknown client) through the real /idp/oauth2/authorize; whenever a code is redirected, a WHATWG-style reader of the emitted Location decides the contacted host: must be https, no query, no '..' segment, host == domain or *.domain (dot boundary), pattern match when configured; class = (client config, scheme/host/path classes, accepted)")
 	defer rep.Finish()
 	rng := verifRand("c13")
 	clients := []c13Client{
@@ -74,6 +74,8 @@ func TestVerifC13(t *testing.T) {
 		{"patterns-only", nil, []string{`^https://app\.example\.com/cb$`, `^https://[a-z]+\.other\.test/`}},
 		{"both", []string{"example.com"}, []string{`^https://[a-z.]*example\.com/cb`}},
 		{"none", nil, nil},
+		// a pattern that does not compile restricts like a pattern nothing matches: it must not fall back to domains only
+		{"domains-and-broken-pattern", []string{"example.com"}, []string{`^https://app\.example\.com/(cb$`}},
 	}
 	var y strings.Builder
 	y.WriteString("openid_connect_idp:\n    clients:\n")
